@@ -7,7 +7,7 @@ from ..explore_r import Scenario, S, mkcfg, bl, sl, bm, sm, run_once, IndexMarke
 WIT = ["index_clock_advances", "unequal_shares", "three_components", "past_time_with_unequal_component_prices",
        "index_observations"]
 RULE = ("share vectors from {1,2,5}^n (n = 2, 3) x index market listed directly after its components or followed by a further "
-        "plain market, or moved to the front of the market list x all executions within the deviation bound of trading programs "
+        "plain market, or moved to the front of the market list, or itself a component of a second index market (its own price differing from its basket) x all executions within the deviation bound of trading programs "
         "that move component prices, with drift and a fundamental shock on a component; at every observation point every "
         "past and current index value is recomputed from the components, and at every clock advance the recorded index "
         "fundamental is compared with the weighted average for the new time; distinct = outcome digests")
@@ -21,10 +21,15 @@ def menu(nc):
     return out
 
 
-def mk(name, shares, extra_market=False, index_first=False, shock=True, drift=True, noexec_first=False):
+def mk(name, shares, extra_market=False, index_first=False, shock=True, drift=True, noexec_first=False, nested=False):
     nc = len(shares)
     markets = [dict(name="M%d" % i, shares=sh, drift=(2.0 ** -7 if i == 1 and drift else 0.0)) for i, sh in enumerate(shares)]
     markets.append(dict(name="IDX", cls="ProbeIndexMarket", components=["M%d" % i for i in range(nc)]))
+    if nested:
+        # an index market that is itself a component of a second index market; its own traded price (110)
+        # differs from the value of its basket (100)
+        markets[-1].update(shares=4, price=110.0)
+        markets.append(dict(name="J", cls="ProbeIndexMarket", components=["IDX", "M1"]))
     if extra_market:
         markets.append(dict(name="X", shares=3))
     mn = menu(nc)
@@ -76,6 +81,8 @@ def scenarios(tier):
     sc["index_nodrift:2-5-1+X"] = mk("index_nodrift:2-5-1+X", (2, 5, 1), extra_market=True, drift=False)
     sc["noexec_first:1-2"] = mk("noexec_first:1-2", (1, 2), noexec_first=True, shock=False)
     sc["noexec_first:2-5-1"] = mk("noexec_first:2-5-1", (2, 5, 1), noexec_first=True)
+    sc["nested:1-2"] = mk("nested:1-2", (1, 2), nested=True)
+    sc["nested:2-5-1+X"] = mk("nested:2-5-1+X", (2, 5, 1), nested=True, extra_market=True, noexec_first=True)
     sc["index_first:1-2-5"] = mk("index_first:1-2-5", (1, 2, 5), index_first=True)
     sc["index_first:2-5+X"] = mk("index_first:2-5+X", (2, 5), extra_market=True, index_first=True)
     return sc
